@@ -86,6 +86,7 @@ func decodeCase(d []byte) (mcase, bool) {
 			c.Parts = append(c.Parts, c.Len-prev)
 		}
 	}
+	c.Scribble = len(c.Parts) >= 2 && d[2]&32 == 0
 	return c, c.valid() == nil
 }
 
